@@ -248,9 +248,8 @@ pub fn generate(ctx: &mut Ctx) {
     }
     for x in gen::F64_EDGES.iter().copied().chain([f64::NAN, f64::INFINITY, f64::NEG_INFINITY]) {
         for unit in [None, libhaystack::units::get_unit("m")] {
-            if unit.is_some() && !x.is_finite() {
-                continue;
-            }
+            // "INF"/"-INF"/"NaN" with a unit is a Hayson document too (the unit is an optional member of every
+            // number object): both directions keep it
             let v = Value::Number(Number { value: x, unit });
             ctx.case("w:num", &format!("w {}", vx::show(&v)));
             for k in 0..4 {
@@ -281,6 +280,28 @@ pub fn generate(ctx: &mut Ctx) {
             let vt = vx::show(&v);
             for k in 0..24 {
                 ctx.case("r:perm", &format!("r {} {vt}", i * 24 + k));
+            }
+        }
+    }
+    // timestamps around daylight-saving transitions (both passes of the repeated hour) and in periods whose
+    // zone offset has seconds
+    for (i, dt) in gen::dst_edge_datetimes().into_iter().chain(gen::lmt_datetimes()).enumerate() {
+        let vt = vx::show(&Value::DateTime(dt));
+        ctx.case("w:dst", &format!("w {vt}"));
+        ctx.case("r:dst", &format!("r {} {vt}", 9000 + i));
+    }
+    // non-finite numbers with a unit inside collections
+    for (i, x) in [f64::NAN, f64::INFINITY, f64::NEG_INFINITY].iter().enumerate() {
+        let mut rng = ctx.rng.fork();
+        let n = Value::Number(Number { value: *x, unit: Some(*rng.pick(gen::all_units_cached())) });
+        let mut d = Dict::new();
+        d.insert("limit".into(), n.clone());
+        let g = Grid::make_from_dicts(vec![d.clone()]);
+        for v in [Value::List(vec![n.clone(), Value::Marker]), Value::Dict(d.clone()), Value::Grid(g)] {
+            let vt = vx::show(&v);
+            ctx.case("w:num", &format!("w {vt}"));
+            for k in 0..3 {
+                ctx.case("r:num", &format!("r {} {vt}", 7000 + 10 * i + k));
             }
         }
     }
